@@ -559,28 +559,28 @@ Definition field_shape (depth : nat) (f : rfield) : mshape :=
 Definition qname_of (v : list rarg) (n : string) : list string :=
   match find_name v with Some s => s | None => [n] end.
 
+Fixpoint list_eqb {A} (f : A -> A -> bool) (l m : list A) : bool :=
+  match l, m with
+  | [], [] => true
+  | x :: l', y :: m' => f x y && list_eqb f l' m'
+  | _, _ => false
+  end.
+Definition opt_eqb {A} (f : A -> A -> bool) (a b : option A) : bool :=
+  match a, b with
+  | None, None => true
+  | Some x, Some y => f x y
+  | _, _ => false
+  end.
+
 Fixpoint kind_eqb (a b : kind) : bool :=
   match a, b with
   | KBool, KBool | KChar, KChar | KI8, KI8 | KU8, KU8 | KI16, KI16 | KU16, KU16 | KI32, KI32
   | KU32, KU32 | KI64, KI64 | KU64, KU64 | KF32, KF32 | KF64, KF64 | KBad, KBad => true
-  | KStr x, KStr y => match x, y with None, None => true | Some p, Some q => p =? q | _, _ => false end
-  | KSeq e x, KSeq f y =>
-      kind_eqb e f && match x, y with None, None => true | Some p, Some q => p =? q | _, _ => false end
-  | KArr e x, KArr f y =>
-      kind_eqb e f && (fix go (l m : list cexpr) : bool :=
-                         match l, m with
-                         | [], [] => true
-                         | p :: l', q :: m' => (p =? q) && go l' m'
-                         | _, _ => false
-                         end) x y
+  | KStr x, KStr y => opt_eqb String.eqb x y
+  | KSeq e x, KSeq f y => kind_eqb e f && opt_eqb String.eqb x y
+  | KArr e x, KArr f y => kind_eqb e f && list_eqb String.eqb x y
   | KOpt e, KOpt f => kind_eqb e f
-  | KRef a1 p1, KRef a2 p2 =>
-      Bool.eqb a1 a2 && (fix go (l m : list string) : bool :=
-                           match l, m with
-                           | [], [] => true
-                           | p :: l', q :: m' => (p =? q) && go l' m'
-                           | _, _ => false
-                           end) p1 p2
+  | KRef a1 p1, KRef a2 p2 => Bool.eqb a1 a2 && list_eqb String.eqb p1 p2
   | _, _ => false
   end.
 
@@ -769,7 +769,7 @@ Definition ev_erase (eb ed ea : bool) (e : ev) : ev :=
   match e with
   | EStruct n qn ext base ms =>
       (* forgetting the base also forgets the `parent` field that stands for it *)
-      let ms1 := if ea then (match ms with m :: r => if is_parent m then r else ms | [] => [] end) else ms in
+      let ms1 := if ea then filter (fun m => negb (is_parent m)) ms else ms in
       EStruct n (if ea then [] else qn) (if ea then None else ext) (if ea then None else base)
               (map (ms_erase eb ed ea) ms1)
   | EEnum n qn bb es => EEnum n (if ea then [] else qn) (if ea then None else bb) es
@@ -781,18 +781,6 @@ Definition ev_erase (eb ed ea : bool) (e : ev) : ev :=
 
 (* --------------------------------------------- boolean equality of declared structure *)
 
-Fixpoint list_eqb {A} (f : A -> A -> bool) (l m : list A) : bool :=
-  match l, m with
-  | [], [] => true
-  | x :: l', y :: m' => f x y && list_eqb f l' m'
-  | _, _ => false
-  end.
-Definition opt_eqb {A} (f : A -> A -> bool) (a b : option A) : bool :=
-  match a, b with
-  | None, None => true
-  | Some x, Some y => f x y
-  | _, _ => false
-  end.
 
 Definition mshape_eqb (a b : mshape) : bool :=
   (ms_name a =? ms_name b) && kind_eqb (ms_kind a) (ms_kind b) && Bool.eqb (ms_key a) (ms_key b)
